@@ -169,6 +169,8 @@ def correspond(ctx, corr, model_ok):
     rng = ctx.rng
     items = []
     corr.oracle_failures.extend(handler_level_oracle())
+    corr.oracle_failures.extend(stream0_order_oracle())
+    corr.count('stream 0: LEASE and METADATA_PUSH queued in a burst behind a blocked writer', 4)
     corr.count('handler level: blocked writer, cancel/error behind a partly written fragmented frame', 24)
     for i in range(ctx.scale(400, 4000)):
         size = rng.choice([64, 64, 65, 100, None])
@@ -242,6 +244,8 @@ def replay(obj):
     case = obj['case']
     if 'gated_case' in case:
         return bool(handler_level_oracle())
+    if 'stream0_case' in case:
+        return bool(stream0_order_oracle())
     script = []
     for st in case['script']:
         if st[0] in ('enq', 'prio'):
@@ -257,3 +261,76 @@ def replay(obj):
     if o:
         print('oracle:', o)
     return bool(o)
+
+
+# ---------------------------------------------------------------------------------------------
+# stream 0: LEASE, METADATA_PUSH and KEEPALIVE answers queued by one endpoint reach the wire in the order they were queued
+# (only SETUP — and a keepalive probe while a frame is partly written — may jump the queue)
+
+def run_stream0_order(role, lenreq):
+    import asyncio
+    from datetime import timedelta
+    from harness import net as NET
+    from rsocket.rsocket_client import RSocketClient
+    from rsocket.rsocket_server import RSocketServer
+    from rsocket.helpers import single_transport_provider
+    loop = sim.new_loop()
+    sim.patch_clock(loop)
+    T = sim.make_transport_class()
+    t = T(lenreq=lenreq)
+    lease = NET.LeasePub()
+    box = {}
+    try:
+        def mk():
+            if role == 'server':
+                box['e'] = RSocketServer(t, lease_publisher=lease)
+            else:
+                box['e'] = RSocketClient(single_transport_provider(t), lease_publisher=lease, honor_lease=True,
+                                         keep_alive_period=timedelta(seconds=1000), max_lifetime_period=timedelta(seconds=5000))
+                asyncio.create_task(box['e'].connect())
+        loop.run(mk)
+        loop.settle()
+        e = box['e']
+        if role == 'server':         # the lease publisher is subscribed when a SETUP asking for leases arrives
+            from harness import frames as FR2
+            t.inject_frame(FR2.build({'t': 'Setup', 'sid': 0, 'ign': False, 'lease': True, 'major': 1, 'minor': 0, 'ka': 100000,
+                                      'ml': 500000, 'resume': None, 'mdenc': b'a/b', 'denc': b'c/d', 'md': b'', 'd': b''}).serialize())
+            loop.settle()
+        if lease.subscriber is None:
+            return None
+        t.gated = True
+
+        def burst():
+            e.metadata_push(b'push-1')
+            lease.grant(5, 60000)
+            lease.grant(1, 60000)
+            e.metadata_push(b'push-2')
+            lease.grant(7, 60000)
+        loop.run(burst)
+        for _ in range(12):
+            t.permit(1)
+            loop.settle()
+        return [sim.parse_sent(b) for b in t.sent]
+    finally:
+        loop.finish()
+
+
+def stream0_order_oracle():
+    out = []
+    for role in ('server', 'client'):
+        for lenreq in (True, False):
+            wire = run_stream0_order(role, lenreq)
+            if wire is None:
+                out.append({'what': 'the lease publisher was never subscribed (%s)' % role, 'stream0_case': [role, lenreq]})
+                continue
+            seq = [('push', bytes(f['md'])) if f['t'] == 'MetadataPush' else ('lease', f['n']) for f in wire
+                   if f['t'] in ('MetadataPush', 'Lease')]
+            want = [('push', b'push-1'), ('lease', 5), ('lease', 1), ('push', b'push-2'), ('lease', 7)]
+            bad = None
+            if seq != want:
+                bad = 'stream 0 frames reached the wire as %s, queued as %s' % (seq, want)
+            elif role == 'client' and wire and wire[0]['t'] != 'Setup':
+                bad = 'first frame of the client is %s' % wire[0]['t']
+            if bad:
+                out.append({'what': 'LEASE / METADATA_PUSH order on stream 0 (%s): %s' % (role, bad), 'stream0_case': [role, lenreq]})
+    return out
